@@ -182,7 +182,8 @@ void Search::go()
     VERIF_POINT("go_entry", 0, 0);
     init_search();
     VERIF_POINT("after_init", 0, 0);
-    stop_search = false;
+    // stop_search is cleared by the constructor only: a stop that arrives
+    // before the search thread gets here must not be lost
     _start_time = std::chrono::steady_clock::now();
     VERIF_POINT("after_reset", 0, 0);
 
